@@ -320,52 +320,7 @@ func c02(c *Ctx) {
 	_ = jb
 	// ---- R2 unpatch before re-capture, registration before capture
 	// a lookup of the patch table keyed by this origin whose found-branch restores, dominating the capture
-	okUnpatch := false
-	eachInstr(inst, func(i ssa.Instruction) {
-		lk, ok := i.(*ssa.Lookup)
-		if !ok || !lk.CommaOk {
-			return
-		}
-		if as := origins(lk.X); len(as) != 1 || as[0].Kind != "global" {
-			return
-		}
-		if _, fv, ok := fieldRef(resolveLocal(lk.Index)); !ok || fv != op {
-			return
-		}
-		if !domInstr(lk, captureCall) {
-			return
-		}
-		// found-branch
-		var okV ssa.Value
-		for _, ref := range *lk.Referrers() {
-			if ex, ok := ref.(*ssa.Extract); ok && ex.Index == 1 {
-				okV = ex
-			}
-		}
-		iff, _ := lk.Block().Instrs[len(lk.Block().Instrs)-1].(*ssa.If)
-		if iff == nil || iff.Cond != okV {
-			return
-		}
-		tb := lk.Block().Succs[0]
-		for _, ins := range tb.Instrs {
-			if ci, ok := ins.(ssa.CallInstruction); ok {
-				if cal := staticCallee(ci.Common()); cal != nil && rr[cal] {
-					// keyed by the same origin
-					for _, a := range ci.Common().Args {
-						if _, fv, ok := fieldRef(resolveLocal(a)); ok && fv == op {
-							okUnpatch = true
-						}
-					}
-				}
-			}
-		}
-		// the restore branch must rejoin before the capture (not return)
-		for _, ins := range tb.Instrs {
-			if _, ok := ins.(*ssa.Return); ok {
-				okUnpatch = false
-			}
-		}
-	})
+	okUnpatch := prevPatchRestoredBefore(p, inst, captureCall)
 	r.Check(okUnpatch, "C02.R2", "previous patch restored before capture in "+shortName(inst), p.Pos(posOf(captureCall)), "if registered(origin) { restore(origin) } dominates the capture",
 		"the installer captures the 'original' bytes without first restoring a previously registered patch of the same origin: re-applying a mock captures the old jump, and Reset then 'restores' a jump")
 	// no restore-less deletion: every delete from the table is preceded by a restore of that entry
@@ -528,4 +483,59 @@ func nilGuardOnFieldEdge(pred, succ *ssa.BasicBlock, fld *types.Var) (isNil bool
 		}
 	}
 	return false, false
+}
+
+// prevPatchRestoredBefore: in the installer, a lookup of the patch table keyed by this patch's origin whose found-branch
+// restores the registered patch (and falls through) dominates instruction at.
+func prevPatchRestoredBefore(p *Prog, inst *ssa.Function, at ssa.Instruction) bool {
+	op := p.patchRoles().POrigin
+	rr := restoreReachers(p)
+	captureCall := at
+	okUnpatch := false
+	eachInstr(inst, func(i ssa.Instruction) {
+		lk, ok := i.(*ssa.Lookup)
+		if !ok || !lk.CommaOk {
+			return
+		}
+		if as := origins(lk.X); len(as) != 1 || as[0].Kind != "global" {
+			return
+		}
+		if _, fv, ok := fieldRef(resolveLocal(lk.Index)); !ok || fv != op {
+			return
+		}
+		if !domInstr(lk, captureCall) {
+			return
+		}
+		// found-branch
+		var okV ssa.Value
+		for _, ref := range *lk.Referrers() {
+			if ex, ok := ref.(*ssa.Extract); ok && ex.Index == 1 {
+				okV = ex
+			}
+		}
+		iff, _ := lk.Block().Instrs[len(lk.Block().Instrs)-1].(*ssa.If)
+		if iff == nil || iff.Cond != okV {
+			return
+		}
+		tb := lk.Block().Succs[0]
+		for _, ins := range tb.Instrs {
+			if ci, ok := ins.(ssa.CallInstruction); ok {
+				if cal := staticCallee(ci.Common()); cal != nil && rr[cal] {
+					// keyed by the same origin
+					for _, a := range ci.Common().Args {
+						if _, fv, ok := fieldRef(resolveLocal(a)); ok && fv == op {
+							okUnpatch = true
+						}
+					}
+				}
+			}
+		}
+		// the restore branch must rejoin before the capture (not return)
+		for _, ins := range tb.Instrs {
+			if _, ok := ins.(*ssa.Return); ok {
+				okUnpatch = false
+			}
+		}
+	})
+	return okUnpatch
 }
